@@ -8,6 +8,7 @@ package main
 import (
 	"fmt"
 	"math/big"
+	"runtime/debug"
 	"sort"
 	"strings"
 	"testing"
@@ -43,11 +44,17 @@ func vBuildDB(book []vPRec, order []int) shared.DBNodeMap {
 	return db
 }
 
-func vResolveVia(entry int, db shared.DBNodeMap, n int) (shared.DBNodeMap, error) {
+func vResolveVia(entry int, db shared.DBNodeMap, n int) (out shared.DBNodeMap, err error) {
+	// the library is called directly here: a panic inside it is a failure of the case, not of the harness
+	defer func() {
+		if r := recover(); r != nil {
+			vViolate("resolving with MaxDepth=%d through entry point %d panics: %v\n%s", n, entry, r, vTrunc(string(debug.Stack()), 1500))
+		}
+	}()
 	if entry == 0 {
 		return resolver.Resolve(resolver.Config{MaxDepth: n}, db)
 	}
-	err := resolver.NewResolver(db, resolver.Config{MaxDepth: n}).Resolve()
+	err = resolver.NewResolver(db, resolver.Config{MaxDepth: n}).Resolve()
 	return db, err
 }
 
@@ -799,6 +806,10 @@ func c11EnumSpace(maxN int) []c11EnumSpec {
 		}
 		out = append(out, c11EnumSpec{n, 1, 3, 2})
 		out = append(out, c11EnumSpec{n, 2, n - 1, 0})
+	}
+	// limits chosen to switch the limit off: short chains resolve, cycles are still rejected
+	for _, n := range []int{1 << 32, 1 << 59, 1 << 62, 1<<63 - 1} {
+		out = append(out, c11EnumSpec{n, 0, 5, 0}, c11EnumSpec{n, 0, 40, 0}, c11EnumSpec{n, 1, 3, 2}, c11EnumSpec{n, 2, 7, 0})
 	}
 	for n := 1; n <= maxN; n++ {
 		for L := 0; L <= n+3; L++ {
